@@ -113,7 +113,8 @@ def render(d, r, cfg):
 
     def comment():
         if r.random() < cfg.get("comment_rate", 0.15):
-            out.append("# a comment .subckt x y=z")
+            # (a separator line that is nothing but '#', a '#' followed by blanks, a comment with text)
+            out.append(r.choice(["# a comment .subckt x y=z", "# a comment .subckt x y=z", "#", "# ", "#\t", "#.end"]))
 
     def wrap(words):
         """join words, sometimes breaking the line with a continuation"""
